@@ -45,7 +45,7 @@ var specs = map[string]*propSpec{
 	"C12": {
 		ID: "C12", Engine: "storesim", Level: "fault_enumeration",
 		QuickRuns: 6000, ThoroughRuns: 300000, Chunk: 200, WatchdogS: 240,
-		Rule:      "one evaluation = one replica configuration (n in 1..5, minWritesForSuccess in 1..n, read set equal/subset/with extra store, overlapping pre-seeded contents) driven through one receive per failing subset of replicas (all 2^n subsets for n<=4; failure kind per failing replica: error, error-after-effect, wrong size, slow) interleaved with fetch/stat/enumerate under read-replica faults; completion order of the concurrent uploads is decided by the seeded scheduler; sub-runs = receives; distinct = distinct (n, m, read set size, op/fault sequence). After every history and 30 virtual seconds (stragglers have landed) the bytes every replica keeps are swept: whatever a replica holds under a ref must hash to it. The simulated store fires its fault or delay before it reads the source it was given, so a caller that re-uses a buffer while a straggling replica write is still pending is seen",
+		Rule:      "one evaluation = one replica configuration (n in 1..5, minWritesForSuccess in 1..n, read set equal/subset/with extra store, overlapping pre-seeded contents) driven through one receive per failing subset of replicas (all 2^n subsets for n<=4; failure kind per failing replica: error, error-after-effect, wrong size, slow) interleaved with fetch/stat/enumerate under read-replica faults; completion order of the concurrent uploads is decided by the seeded scheduler; sub-runs = receives; distinct = distinct (n, m, read set size, op/fault sequence). After every history and 30 virtual seconds (stragglers have landed) the bytes every replica keeps are swept: whatever a replica holds under a ref must hash to it. The simulated store fires its fault or delay before it reads the source it was given, so a caller that re-uses a buffer while a straggling replica write is still pending is seen. After a receive with failing replicas the client tries again in a third of the cases, with all replicas back; the quorum oracle counts replicas that already hold the blob",
 		Real:      []string{"pkg/blobserver/replica", "pkg/blobserver (ReceiveNoHash, MergedEnumerate)"},
 		Stub:      []string{"SimStore replicas with fault plan and scheduling points"},
 		MustReach: []string{"ack-with-failed-replicas", "ack-before-stragglers", "recv-refused"},
@@ -67,7 +67,7 @@ var specs = map[string]*propSpec{
 	"C11": {
 		ID: "C11", Engine: "storesim", Level: "exploration",
 		QuickRuns: 1500, ThoroughRuns: 60000, Chunk: 25, WatchdogS: 400,
-		Rule:      "one evaluation = one history on encrypt(blobs, meta, metaIndex) over simulated stores: receives (in a fifth of the runs more than SmallMetaCountLimit, so the background meta compaction runs under the seeded scheduler), reads, restarts with the meta index wiped (graceful, or a kill right after an operation returned with compaction in flight), process death inside a receive, and tamper operations on stored ciphertext/meta blobs (single-byte flips — every position for blobs up to 1 KiB —, truncations, extension, blob-for-blob swap, removal), each followed by a sweep (every fetch returns the original plaintext or fails), optionally a restart with wiped index (which either refuses to start or, having accepted every meta blob, must have rebuilt the whole mapping: a stat of every blob is then checked strictly), and restoration; in 40% of the runs the compaction limits (SmallMetaCountLimit, FullMetaBlobSize) are lowered through an overlay seam so that multi-group compactions and compactions during the start-up scan happen in short histories; one run in 120 uploads 560-640 tiny blobs so that one packed meta blob exceeds an age payload chunk (64 KiB) and tampers with its tail; a leak scan searches every byte and blob name of the wrapped stores for plaintext refs, digests and 16-byte plaintext windows; sub-runs = tamper variants; distinct = distinct (blob count, op-kind sequence)",
+		Rule:      "one evaluation = one history on encrypt(blobs, meta, metaIndex) over simulated stores: receives (in a fifth of the runs more than SmallMetaCountLimit, so the background meta compaction runs under the seeded scheduler), reads, restarts with the meta index wiped (graceful, or a kill right after an operation returned with compaction in flight), process death inside a receive, and tamper operations on stored ciphertext/meta blobs (single-byte flips — every position for blobs up to 1 KiB —, truncations, extension, blob-for-blob swap, removal), each followed by a sweep (every fetch returns the original plaintext or fails), optionally a restart with wiped index (which either refuses to start or, having accepted every meta blob, must have rebuilt the whole mapping: a stat of every blob is then checked strictly), and restoration; in 40% of the runs the compaction limits (SmallMetaCountLimit, FullMetaBlobSize) are lowered through an overlay seam so that multi-group compactions and compactions during the start-up scan happen in short histories; one run in 120 uploads 560-640 tiny blobs so that one packed meta blob exceeds an age payload chunk (64 KiB) and tampers with its tail; a leak scan searches every byte and blob name of the wrapped stores for plaintext refs, digests and 16-byte plaintext windows; sub-runs = tamper variants; distinct = distinct (blob count, op-kind sequence). In three runs out of ten the simulated meta store sends at most 1, 2 or 7 blobs per enumeration call (legal: at most limit); the start-up scan must still see every meta blob",
 		Real:      []string{"pkg/blobserver/encrypt (encrypt.go, meta.go)", "filippo.io/age"},
 		Stub:      []string{"SimStore blobs/meta", "SimKV metaIndex", "crypto/rand replaced by a seeded DRBG"},
 		MustReach: []string{"restart-index-wiped", "meta-compaction-removed-small-metas", "tamper-flipall", "compaction-knobs-lowered", "startup-refused-tampered"},
